@@ -587,7 +587,7 @@ func (a *Analysis) CheckC15(rep *Report) {
 		}
 		for _, p := range r.DecPaths {
 			walkEvents(p.Events, func(e *Event, _ int) {
-				if g := globalWritten(e); g != "" {
+				if g := globalWritten(e); g != "" && !a.onceAssignment(e) {
 					rep.Ob("D3-no-global-state", ct.Name+":"+g, false, a.P.Pos(e.Pos), "decoding writes package-level state "+g)
 				}
 			})
